@@ -1,6 +1,6 @@
 (* C02 — Nested causal structures evaluate like the conjunction of what they contain. *)
 From Coq Require Import List Arith NArith ZArith Bool.
-From DC Require Import Common.AList Graph.UltraGraph Causal.Model Causal.Proofs.
+From DC Require Import Common.AList Graph.UltraGraph Causal.Model Causal.Proofs Causal.Structural.
 Import ListNotations.
 
 (* a causaloid wrapping a collection / a graph gives, in every position it is evaluated from, the
@@ -31,7 +31,20 @@ Theorem C02_contextual_uses_its_context : forall id cell fk ctx obs s,
   /\ hd_error (log s') = Some (mkEntry cell (10 + ctx) obs (fn_verdict fk ctx obs)).
 Proof. exact contextual_uses_its_context. Qed.
 
+(* structural form: the verdict of a collection is the short-circuit conjunction of the verdicts of ALL the items it
+   contains (no contained item is skipped), each item's verdict depending on the item and the observations only *)
+Theorem C02_collection_is_conjunction_of_items : forall f items i data s,
+  fst (run f (TColl items i) data s) = coll_conj f items i data.
+Proof. exact collection_is_conjunction_of_items. Qed.
+
+Theorem C02_collection_true_needs_every_item : forall f items i data,
+  coll_conj f items i data = ROk true ->
+  forall j c, nth_error items j = Some c -> exists f', f' < f /\ item_res f' c (i + j) data = ROk true.
+Proof. exact collection_true_iff_all_items. Qed.
+
 Print Assumptions C02_nested_collection_is_direct.
+Print Assumptions C02_collection_is_conjunction_of_items.
+Print Assumptions C02_collection_true_needs_every_item.
 Print Assumptions C02_nested_graph_is_direct.
 Print Assumptions C02_verdict_is_conjunction_of_trace.
 Print Assumptions C02_contextual_uses_its_context.
